@@ -143,11 +143,14 @@ def crash_site(e):
 
 
 def norm_msg(e):
+    """Stable digest of an exception message: first line, the part before
+    the first ': ' / ' [', quoted parts and numbers blanked."""
     s = str(e).split('\n')[0]
+    s = re.split(r': | \[', s)[0]
     s = re.sub(r"'[^']*'", "'_'", s)
     s = re.sub(r'"[^"]*"', '"_"', s)
     s = re.sub(r'\d+', 'N', s)
-    return s[:70]
+    return s[:60]
 
 
 def jcanon(x):
@@ -302,15 +305,18 @@ def generalise(path):
     parts = [p for p in (path or '').split('/') if p]
     out = []
     skip = False
+    last_star = -1
     for i, p in enumerate(parts):
         if skip:
             out.append('*')
+            last_star = len(out) - 1
             skip = False
             continue
         out.append(p)
         if p in ('tasks', 'workflows', 'actions'):
             skip = True
-    return '/'.join(out[:4])
+    # one field below the last member name
+    return '/'.join(out[:last_star + 2] if last_star >= 0 else out[:1])
 
 
 def members(kind, spec):
@@ -743,51 +749,87 @@ def evaluate(kind, text, expected=None, expect=None, rest=True):
 
 
 # ---------------------------------------------------------------- engine runs
-def run_once(text, results, evict):
+def run_once(text, results, stored, params=None):
+    """One run of workflow `wf` of the text to quiescence under one fixed
+    schedule (first enabled step).
+
+    stored=False: the engine works with the spec object of the fresh parse
+                  of the submitted text (what a process that has just
+                  accepted the definition holds), caches warm.
+    stored=True : the engine works from the stored forms only: every cache
+                  is evicted before every step (restart / eviction).
+    """
     env.reset(results=results)
     env.with_ctx(lambda: env.wf_service.create_workflows(text))
-    env.post('start_workflow', wf_identifier='wf', wf_namespace='',
-             wf_ex_id=None, wf_input={}, description='', params={})
-    steps = 0
-    while steps < 400:
-        ch = env.enabled_choices()
-        if not ch:
-            t = env.next_clock_event()
-            if t is None or t > 3600:
-                break
-            env.set_clock(t)
-            continue
-        if evict:
-            sp.clear_caches()
-        env.step(ch[0])
-        steps += 1
+    orig = sp.get_workflow_spec_by_definition_id
+    if not stored:
+        fresh = PARSERS['wf'](text)
+        by_name = {str(w.get_name()): w for w in fresh.get_workflows()}
+        cur = env.raw_conn().cursor()
+        cur.execute('select id, name from workflow_definitions_v2')
+        by_id = {i: by_name[str(n)] for i, n in cur.fetchall()
+                 if str(n) in by_name}
+
+        def from_fresh(wf_def_id, wf_def_updated_at):
+            if wf_def_id in by_id:
+                return by_id[wf_def_id]
+            return orig(wf_def_id, wf_def_updated_at)
+        sp.get_workflow_spec_by_definition_id = from_fresh
+    try:
+        env.post('start_workflow', wf_identifier='wf', wf_namespace='',
+                 wf_ex_id=None, wf_input={}, description='',
+                 params=dict(params or {}))
+        steps = 0
+        while steps < 400:
+            ch = env.enabled_choices()
+            if not ch:
+                t = env.next_clock_event()
+                if t is None or t > 3600:
+                    break
+                env.set_clock(t)
+                continue
+            if stored:
+                sp.clear_caches()
+            env.step(ch[0])
+            steps += 1
+    finally:
+        sp.get_workflow_spec_by_definition_id = orig
     out = wfscn.outcome_of(env.dump_tables())
-    exc = [(w, cls) for (w, cls, is_m, _) in env.W.exceptions if not is_m]
-    return out, steps, exc
+    out['errors'] = sorted(set(
+        '%s:%s' % (cls, re.sub(r'[0-9a-f-]{36}', 'ID', txt)[:80])
+        for (_w, cls, _m, txt) in env.W.exceptions))
+    return out, steps
 
 
-def evaluate_run(text, tag):
-    """Warm caches vs eviction before every step."""
+def evaluate_run(text, tag, params=None):
+    """G: fresh spec object vs stored forms."""
     c = Case('run', text)
     keys = re.findall(r'key: (\S+)', text)
     results = {k: [tag] for k in keys}
     try:
-        a, na, ea = run_once(text, results, False)
-        b, nb, eb = run_once(text, results, True)
-    except Exception as e:      # noqa
+        a, na = guarded(lambda: run_once(text, results, False, params), 60)
+        b, nb = guarded(lambda: run_once(text, results, True, params), 60)
+    except (Hang, Exception) as e:      # noqa
         c.crash('engine-run', e)
         return c
     finally:
+        sp.get_workflow_spec_by_definition_id = _ORIG_BY_DEF
         env.reset()
     c.facts['run_steps'] += na
+    c.facts['runs_compared'] += 1
     c.outcome = ','.join(sorted(set(w['state'] for w in a['wfs']))) or 'none'
     if jcanon(a) != jcanon(b):
         d = first_diff(a, b)
-        c.problem('run-differs-after-eviction/%s' % generalise(d),
-                  'outcome with spec caches evicted before every step '
-                  'differs from the warm-cache run at %s: warm=%s evicted=%s'
+        c.problem('run-from-stored-form-differs/%s'
+                  % re.sub(r'/\d+', '/*', d or '')[:40],
+                  'the run driven from the stored forms (caches evicted '
+                  'before every step) differs from the run driven by the '
+                  'freshly accepted spec at %s: fresh=%s stored=%s'
                   % (d, _at(a, d), _at(b, d)))
     return c
+
+
+_ORIG_BY_DEF = sp.get_workflow_spec_by_definition_id
 
 
 # ---------------------------------------------------------------- jobs
@@ -834,7 +876,7 @@ def run_job(job):
     """-> compact result dict."""
     if job[0] == 'run':
         s = load_seeds()[job[1]]
-        c = evaluate_run(s['text'], job[2])
+        c = evaluate_run(s['text'], job[2], s.get('run_params'))
         key = M.sha('run/' + job[2], s['text'])
     else:
         jc = job_case(job)
@@ -843,6 +885,14 @@ def run_job(job):
         kind, text, expected, expect, rest = jc
         c = evaluate(kind, text, expected, expect, rest)
         key = M.sha(kind, text)
+        if job[0] == 'mut' and len(job) > 4 and job[4] and \
+                c.outcome == 'accept' and not c.problems and \
+                re.search(r'^wf:', text, re.M):
+            s = load_seeds()[job[1]]
+            for tag in ('S', 'E'):
+                c2 = evaluate_run(text, tag, s.get('run_params'))
+                c.problems.extend(c2.problems)
+                c.facts.update(c2.facts)
     return {'key': key, 'kind': c.kind, 'outcome': c.outcome, 'cls': c.cls,
             'problems': c.problems, 'facts': dict(c.facts),
             'len': len(c.text)}
@@ -960,6 +1010,7 @@ QUICK_MUTATED = (
     'file/mistral/resources/actions/wait_ssh.yaml',
 )
 MAX_NODES_MUTATED = 250     # larger seeds: baseline only
+RUN_MUTANTS_MAX_TASKS = 3   # thorough: accepted mutants of these are run
 PAIR_MAX_TASKS = 3
 PAIR_MAX_NODES = 22
 
@@ -973,7 +1024,7 @@ def build_jobs(tier):
     texts = [('text', name, kind) for name, _ in M.TEXTS
              for kind in ('wf', 'wb', 'act')]
     singles = []
-    mutated, skipped_big = [], []
+    mutated, skipped_big, run_mutant_seeds = [], [], []
     for i, s in enumerate(seeds):
         tree = _TREES[i]
         if tree is None:
@@ -984,8 +1035,12 @@ def build_jobs(tier):
         if tier == 'quick' and s['id'] not in QUICK_MUTATED:
             continue
         mutated.append(s['id'])
+        run = bool(tier == 'thorough' and s.get('runnable') and
+                   (s.get('tasks') or 99) <= RUN_MUTANTS_MAX_TASKS)
+        if run:
+            run_mutant_seeds.append(s['id'])
         for m in M.single_mutations(tree):
-            singles.append(('mut', i, [m]))
+            singles.append(('mut', i, [m], True, run))
     pairs = []
     pair_seeds = []
     if tier == 'thorough':
@@ -1004,7 +1059,7 @@ def build_jobs(tier):
                         pairs.append(('mut', i, [ms[a], ms[b]], False))
     runs = []
     for i, s in enumerate(seeds):
-        if s.get('prog') and not s.get('jinja'):
+        if s.get('runnable'):
             runs.append(('run', i, 'S'))
             runs.append(('run', i, 'E'))
     bounds['seeds'] = len(seeds)
@@ -1015,6 +1070,7 @@ def build_jobs(tier):
     bounds['key_catalogue'] = [n for n, _ in M.KEYS]
     bounds['insert_catalogue'] = [n for n, _ in M.INSERTS]
     bounds['raw_texts'] = len(M.TEXTS)
+    bounds['seeds_whose_accepted_mutants_are_run'] = run_mutant_seeds
     bounds['pair_seeds'] = pair_seeds
     bounds['pair_value_catalogue'] = M.PAIR_VALUES
     bounds['pair_key_catalogue'] = M.PAIR_KEYS
@@ -1031,7 +1087,7 @@ def job_doc(job):
     if job[0] == 'run':
         s = load_seeds()[job[1]]
         return {'mode': 'run', 'text': s['text'], 'tag': job[2],
-                'seed': s['id']}
+                'seed': s['id'], 'run_params': s.get('run_params')}
     kind, text, expected, expect, rest = job_case(job)
     d = {'mode': 'case', 'kind': kind, 'text': text, 'expect': expect,
          'rest': rest}
@@ -1044,6 +1100,9 @@ def job_doc(job):
     if job[0] == 'mut':
         d['seed'] = load_seeds()[job[1]]['id']
         d['mutations'] = job[2]
+        if len(job) > 4 and job[4]:
+            d['run_after'] = True
+            d['run_params'] = load_seeds()[job[1]].get('run_params')
     elif job[0] == 'base':
         d['seed'] = load_seeds()[job[1]]['id']
     else:
@@ -1180,13 +1239,17 @@ def main(tier):
 def _replay_inproc(doc):
     app()
     if doc.get('mode') == 'run':
-        c = evaluate_run(doc['text'], doc['tag'])
+        c = evaluate_run(doc['text'], doc['tag'], doc.get('run_params'))
     else:
         expected = None
         if doc.get('expected') is not None:
             expected = (doc['expected'][0], doc['expected'][1])
         c = evaluate(doc['kind'], doc['text'], expected, doc.get('expect'),
                      doc.get('rest', True))
+        if doc.get('run_after') and c.outcome == 'accept':
+            for tag in ('S', 'E'):
+                c.problems.extend(evaluate_run(
+                    doc['text'], tag, doc.get('run_params')).problems)
     want = doc.get('group')
 
     def match(g):
